@@ -13,6 +13,7 @@ harness/props/C16.py (every field + remaining bits/refs compared).
 -/
 import TonVerif.Proofs.Codec
 import TonVerif.Spec.Tlb.Block
+import TonVerif.Proofs.SrcTlbParsers
 
 namespace TonVerif.Tlb
 open TonVerif
@@ -1092,5 +1093,212 @@ example : (futureSplitMerge.enc (.con "fsm_merge" (.record [("merge_utime", .int
 /-- No constructor tag of any covered type is a prefix of another tag of the same type, so `tagged` is a genuine
     codec for each of them (never the empty type). -/
 theorem c16_tags_prefix_free : allTagLists.all (fun p => prefixFree p.2) = true := by decide
+
+/-! ## Source tie: the REGENERATED Python parsers (`c16_src_*`)
+
+`Src.<Class>` (Generated/TlbParsers.lean) is regenerated on every run from the `deserialize` classmethod of the class in
+`pytoniq_core/tlb/*.py` (harness/translate/tlbparsers.py), written with the hand model of the `Slice` methods
+(Model/TlbRd.lean); `view_<Class>` (Spec/Tlb/PyView.lean) is the declared interface: which schema field arrives in which
+constructor argument of the returned object.  Each theorem below is, for ALL values `v` of the block.tlb type:
+
+    T.enc v = some f  →  ∀ k,  Src.<Class> false (f ++ k) = some (view_<Class> v, k)
+
+the parser as it is in the working tree, run on the spec encoding of `v` followed by ANY trailer `k` (bits and refs) in an
+ordinary cell, returns every field with its encoded value (modulo the declared view) and leaves exactly the trailer.
+It follows from `refines_<Class>` (Proofs/SrcTlbParsers.lean: the reader agrees with the spec decoder wherever the spec
+decoder accepts) and the round-trip law above.  Nothing is claimed for slices that are not valid encodings (the parsers
+are laxer than the spec decoder there). -/
+
+/-- `HashUpdate.deserialize`, regenerated from the source: on the spec encoding of ANY `HashUpdate` value followed by ANY trailer it
+    returns every field with its encoded value (view `view_HashUpdate`) and consumes exactly the encoded bits and refs. -/
+theorem c16_src_HashUpdate (v : Val) (f : Frag) (he : hashUpdate.enc v = some f) (k : Frag) :
+    Src.HashUpdate false (f ++ k) = some (view_HashUpdate v, k) :=
+  refines_HashUpdate.on_encoding v f he k
+
+/-- `TickTock.deserialize`, regenerated from the source: on the spec encoding of ANY `TickTock` value followed by ANY trailer it
+    returns every field with its encoded value (view `view_TickTock`) and consumes exactly the encoded bits and refs. -/
+theorem c16_src_TickTock (v : Val) (f : Frag) (he : tickTock.enc v = some f) (k : Frag) :
+    Src.TickTock false (f ++ k) = some (view_TickTock v, k) :=
+  refines_TickTock.on_encoding v f he k
+
+/-- `StorageUsed.deserialize`, regenerated from the source: on the spec encoding of ANY `StorageUsed` value followed by ANY trailer it
+    returns every field with its encoded value (view `view_StorageUsed`) and consumes exactly the encoded bits and refs. -/
+theorem c16_src_StorageUsed (v : Val) (f : Frag) (he : storageUsed.enc v = some f) (k : Frag) :
+    Src.StorageUsed false (f ++ k) = some (view_StorageUsed v, k) :=
+  refines_StorageUsed.on_encoding v f he k
+
+/-- `StorageUsedShort.deserialize`, regenerated from the source: on the spec encoding of ANY `StorageUsedShort` value followed by ANY trailer it
+    returns every field with its encoded value (view `view_StorageUsedShort`) and consumes exactly the encoded bits and refs. -/
+theorem c16_src_StorageUsedShort (v : Val) (f : Frag) (he : storageUsedShort.enc v = some f) (k : Frag) :
+    Src.StorageUsedShort false (f ++ k) = some (view_StorageUsedShort v, k) :=
+  refines_StorageUsedShort.on_encoding v f he k
+
+/-- `StorageInfo.deserialize`, regenerated from the source: on the spec encoding of ANY `StorageInfo` value followed by ANY trailer it
+    returns every field with its encoded value (view `view_StorageInfo`) and consumes exactly the encoded bits and refs. -/
+theorem c16_src_StorageInfo (v : Val) (f : Frag) (he : storageInfo.enc v = some f) (k : Frag) :
+    Src.StorageInfo false (f ++ k) = some (view_StorageInfo v, k) :=
+  refines_StorageInfo.on_encoding v f he k
+
+/-- `AccountStatus.deserialize`, regenerated from the source: on the spec encoding of ANY `AccountStatus` value followed by ANY trailer it
+    returns every field with its encoded value (view `view_AccountStatus`) and consumes exactly the encoded bits and refs. -/
+theorem c16_src_AccountStatus (v : Val) (f : Frag) (he : accountStatus.enc v = some f) (k : Frag) :
+    Src.AccountStatus false (f ++ k) = some (view_AccountStatus v, k) :=
+  refines_AccountStatus.on_encoding v f he k
+
+/-- `StateInit.deserialize`, regenerated from the source: on the spec encoding of ANY `StateInit` value followed by ANY trailer it
+    returns every field with its encoded value (view `view_StateInit`) and consumes exactly the encoded bits and refs. -/
+theorem c16_src_StateInit (v : Val) (f : Frag) (he : stateInit.enc v = some f) (k : Frag) :
+    Src.StateInit false (f ++ k) = some (view_StateInit v, k) :=
+  refines_StateInit.on_encoding v f he k
+
+/-- `AccountState.deserialize`, regenerated from the source: on the spec encoding of ANY `AccountState` value followed by ANY trailer it
+    returns every field with its encoded value (view `view_AccountState`) and consumes exactly the encoded bits and refs. -/
+theorem c16_src_AccountState (v : Val) (f : Frag) (he : accountState.enc v = some f) (k : Frag) :
+    Src.AccountState false (f ++ k) = some (view_AccountState v, k) :=
+  refines_AccountState.on_encoding v f he k
+
+/-- `ExtBlkRef.deserialize`, regenerated from the source: on the spec encoding of ANY `ExtBlkRef` value followed by ANY trailer it
+    returns every field with its encoded value (view `view_ExtBlkRef`) and consumes exactly the encoded bits and refs. -/
+theorem c16_src_ExtBlkRef (v : Val) (f : Frag) (he : extBlkRef.enc v = some f) (k : Frag) :
+    Src.ExtBlkRef false (f ++ k) = some (view_ExtBlkRef v, k) :=
+  refines_ExtBlkRef.on_encoding v f he k
+
+/-- `BlkMasterInfo.deserialize`, regenerated from the source: on the spec encoding of ANY `BlkMasterInfo` value followed by ANY trailer it
+    returns every field with its encoded value (view `view_BlkMasterInfo`) and consumes exactly the encoded bits and refs. -/
+theorem c16_src_BlkMasterInfo (v : Val) (f : Frag) (he : blkMasterInfo.enc v = some f) (k : Frag) :
+    Src.BlkMasterInfo false (f ++ k) = some (view_BlkMasterInfo v, k) :=
+  refines_BlkMasterInfo.on_encoding v f he k
+
+/-- `KeyExtBlkRef.deserialize`, regenerated from the source: on the spec encoding of ANY `KeyExtBlkRef` value followed by ANY trailer it
+    returns every field with its encoded value (view `view_KeyExtBlkRef`) and consumes exactly the encoded bits and refs. -/
+theorem c16_src_KeyExtBlkRef (v : Val) (f : Frag) (he : keyExtBlkRef.enc v = some f) (k : Frag) :
+    Src.KeyExtBlkRef false (f ++ k) = some (view_KeyExtBlkRef v, k) :=
+  refines_KeyExtBlkRef.on_encoding v f he k
+
+/-- `KeyMaxLt.deserialize`, regenerated from the source: on the spec encoding of ANY `KeyMaxLt` value followed by ANY trailer it
+    returns every field with its encoded value (view `view_KeyMaxLt`) and consumes exactly the encoded bits and refs. -/
+theorem c16_src_KeyMaxLt (v : Val) (f : Frag) (he : keyMaxLt.enc v = some f) (k : Frag) :
+    Src.KeyMaxLt false (f ++ k) = some (view_KeyMaxLt v, k) :=
+  refines_KeyMaxLt.on_encoding v f he k
+
+/-- `Counters.deserialize`, regenerated from the source: on the spec encoding of ANY `Counters` value followed by ANY trailer it
+    returns every field with its encoded value (view `view_Counters`) and consumes exactly the encoded bits and refs. -/
+theorem c16_src_Counters (v : Val) (f : Frag) (he : counters.enc v = some f) (k : Frag) :
+    Src.Counters false (f ++ k) = some (view_Counters v, k) :=
+  refines_Counters.on_encoding v f he k
+
+/-- `CreatorStats.deserialize`, regenerated from the source: on the spec encoding of ANY `CreatorStats` value followed by ANY trailer it
+    returns every field with its encoded value (view `view_CreatorStats`) and consumes exactly the encoded bits and refs. -/
+theorem c16_src_CreatorStats (v : Val) (f : Frag) (he : creatorStats.enc v = some f) (k : Frag) :
+    Src.CreatorStats false (f ++ k) = some (view_CreatorStats v, k) :=
+  refines_CreatorStats.on_encoding v f he k
+
+/-- `ValidatorInfo.deserialize`, regenerated from the source: on the spec encoding of ANY `ValidatorInfo` value followed by ANY trailer it
+    returns every field with its encoded value (view `view_ValidatorInfo`) and consumes exactly the encoded bits and refs. -/
+theorem c16_src_ValidatorInfo (v : Val) (f : Frag) (he : validatorInfo.enc v = some f) (k : Frag) :
+    Src.ValidatorInfo false (f ++ k) = some (view_ValidatorInfo v, k) :=
+  refines_ValidatorInfo.on_encoding v f he k
+
+/-- `ShardIdent.deserialize`, regenerated from the source: on the spec encoding of ANY `ShardIdent` value followed by ANY trailer it
+    returns every field with its encoded value (view `view_ShardIdent`) and consumes exactly the encoded bits and refs. -/
+theorem c16_src_ShardIdent (v : Val) (f : Frag) (he : shardIdent.enc v = some f) (k : Frag) :
+    Src.ShardIdent false (f ++ k) = some (view_ShardIdent v, k) :=
+  refines_ShardIdent.on_encoding v f he k
+
+/-- `GlobalVersion.deserialize`, regenerated from the source: on the spec encoding of ANY `GlobalVersion` value followed by ANY trailer it
+    returns every field with its encoded value (view `view_GlobalVersion`) and consumes exactly the encoded bits and refs. -/
+theorem c16_src_GlobalVersion (v : Val) (f : Frag) (he : globalVersion.enc v = some f) (k : Frag) :
+    Src.GlobalVersion false (f ++ k) = some (view_GlobalVersion v, k) :=
+  refines_GlobalVersion.on_encoding v f he k
+
+/-- `SplitMergeInfo.deserialize`, regenerated from the source: on the spec encoding of ANY `SplitMergeInfo` value followed by ANY trailer it
+    returns every field with its encoded value (view `view_SplitMergeInfo`) and consumes exactly the encoded bits and refs. -/
+theorem c16_src_SplitMergeInfo (v : Val) (f : Frag) (he : splitMergeInfo.enc v = some f) (k : Frag) :
+    Src.SplitMergeInfo false (f ++ k) = some (view_SplitMergeInfo v, k) :=
+  refines_SplitMergeInfo.on_encoding v f he k
+
+/-- `SigPubKey.deserialize`, regenerated from the source: on the spec encoding of ANY `SigPubKey` value followed by ANY trailer it
+    returns every field with its encoded value (view `view_SigPubKey`) and consumes exactly the encoded bits and refs. -/
+theorem c16_src_SigPubKey (v : Val) (f : Frag) (he : sigPubKey.enc v = some f) (k : Frag) :
+    Src.SigPubKey false (f ++ k) = some (view_SigPubKey v, k) :=
+  refines_SigPubKey.on_encoding v f he k
+
+/-- `AccStatusChange.deserialize`, regenerated from the source: on the spec encoding of ANY `AccStatusChange` value followed by ANY trailer it
+    returns every field with its encoded value (view `view_AccStatusChange`) and consumes exactly the encoded bits and refs. -/
+theorem c16_src_AccStatusChange (v : Val) (f : Frag) (he : accStatusChange.enc v = some f) (k : Frag) :
+    Src.AccStatusChange false (f ++ k) = some (view_AccStatusChange v, k) :=
+  refines_AccStatusChange.on_encoding v f he k
+
+/-- `ComputeSkipReason.deserialize`, regenerated from the source: on the spec encoding of ANY `ComputeSkipReason` value followed by ANY trailer it
+    returns every field with its encoded value (view `view_ComputeSkipReason`) and consumes exactly the encoded bits and refs. -/
+theorem c16_src_ComputeSkipReason (v : Val) (f : Frag) (he : computeSkipReason.enc v = some f) (k : Frag) :
+    Src.ComputeSkipReason false (f ++ k) = some (view_ComputeSkipReason v, k) :=
+  refines_ComputeSkipReason.on_encoding v f he k
+
+/-- `TrStoragePhase.deserialize`, regenerated from the source: on the spec encoding of ANY `TrStoragePhase` value followed by ANY trailer it
+    returns every field with its encoded value (view `view_TrStoragePhase`) and consumes exactly the encoded bits and refs. -/
+theorem c16_src_TrStoragePhase (v : Val) (f : Frag) (he : trStoragePhase.enc v = some f) (k : Frag) :
+    Src.TrStoragePhase false (f ++ k) = some (view_TrStoragePhase v, k) :=
+  refines_TrStoragePhase.on_encoding v f he k
+
+/-- `TrComputePhase.deserialize`, regenerated from the source: on the spec encoding of ANY `TrComputePhase` value followed by ANY trailer it
+    returns every field with its encoded value (view `view_TrComputePhase`) and consumes exactly the encoded bits and refs. -/
+theorem c16_src_TrComputePhase (v : Val) (f : Frag) (he : trComputePhase.enc v = some f) (k : Frag) :
+    Src.TrComputePhase false (f ++ k) = some (view_TrComputePhase v, k) :=
+  refines_TrComputePhase.on_encoding v f he k
+
+/-- `TrBouncePhase.deserialize`, regenerated from the source: on the spec encoding of ANY `TrBouncePhase` value followed by ANY trailer it
+    returns every field with its encoded value (view `view_TrBouncePhase`) and consumes exactly the encoded bits and refs. -/
+theorem c16_src_TrBouncePhase (v : Val) (f : Frag) (he : trBouncePhase.enc v = some f) (k : Frag) :
+    Src.TrBouncePhase false (f ++ k) = some (view_TrBouncePhase v, k) :=
+  refines_TrBouncePhase.on_encoding v f he k
+
+/-- `FutureSplitMerge.deserialize`, regenerated from the source: on the spec encoding of ANY `FutureSplitMerge` value followed by ANY trailer it
+    returns every field with its encoded value (view `view_FutureSplitMerge`) and consumes exactly the encoded bits and refs. -/
+theorem c16_src_FutureSplitMerge (v : Val) (f : Frag) (he : futureSplitMerge.enc v = some f) (k : Frag) :
+    Src.FutureSplitMerge false (f ++ k) = some (view_FutureSplitMerge v, k) :=
+  refines_FutureSplitMerge.on_encoding v f he k
+
+/-- `IntermediateAddress.deserialize`, regenerated from the source: on the spec encoding of ANY `IntermediateAddress` value followed by ANY trailer it
+    returns every field with its encoded value (view `view_IntermediateAddress`) and consumes exactly the encoded bits and refs. -/
+theorem c16_src_IntermediateAddress (v : Val) (f : Frag) (he : intermediateAddress.enc v = some f) (k : Frag) :
+    Src.IntermediateAddress false (f ++ k) = some (view_IntermediateAddress v, k) :=
+  refines_IntermediateAddress.on_encoding v f he k
+
+/-- `ValidatorDescr.deserialize`, regenerated from the source: on the spec encoding of ANY `ValidatorDescr` value followed by ANY trailer it
+    returns every field with its encoded value (view `view_ValidatorDescr`) and consumes exactly the encoded bits and refs. -/
+theorem c16_src_ValidatorDescr (v : Val) (f : Frag) (he : validatorDescr.enc v = some f) (k : Frag) :
+    Src.ValidatorDescr false (f ++ k) = some (view_ValidatorDescr v, k) :=
+  refines_ValidatorDescr.on_encoding v f he k
+
+/-- `CatchainConfig.deserialize`, regenerated from the source: on the spec encoding of ANY `CatchainConfig` value followed by ANY trailer it
+    returns every field with its encoded value (view `view_CatchainConfig`) and consumes exactly the encoded bits and refs. -/
+theorem c16_src_CatchainConfig (v : Val) (f : Frag) (he : catchainConfig.enc v = some f) (k : Frag) :
+    Src.CatchainConfig false (f ++ k) = some (view_CatchainConfig v, k) :=
+  refines_CatchainConfig.on_encoding v f he k
+
+/-- `BlkPrevInfo.deserialize(slice, after_merge)` regenerated from the source, `after_merge = 0` (`prev_blk_info$_`) -/
+theorem c16_src_BlkPrevInfo0 (v : Val) (f : Frag) (he : (blkPrevInfo 0).enc v = some f) (k : Frag) :
+    Src.BlkPrevInfo false (f ++ k) (.int 0) = some (view_BlkPrevInfo v, k) :=
+  refines_BlkPrevInfo0.on_encoding v f he k
+
+/-- `BlkPrevInfo.deserialize(slice, after_merge)` regenerated from the source, `after_merge = 1` (`prev_blks_info$_`, two references) -/
+theorem c16_src_BlkPrevInfo1 (v : Val) (f : Frag) (he : (blkPrevInfo 1).enc v = some f) (k : Frag) :
+    Src.BlkPrevInfo false (f ++ k) (.int 1) = some (view_BlkPrevInfo v, k) :=
+  refines_BlkPrevInfo1.on_encoding v f he k
+
+/-- non-vacuity: a concrete `TickTock` value is encodable, and the regenerated parser reads it back (with a 1-bit trailer) -/
+example :
+    (tickTock.enc (.record [("tick", .bool true), ("tock", .bool false)])).isSome = true ∧
+    Src.TickTock false ⟨[true, false, true], []⟩ =
+      some (view_TickTock (.record [("tick", .bool true), ("tock", .bool false)]), ⟨[true], []⟩) := by
+  constructor
+  · decide +kernel
+  · rfl
+
+/-- non-vacuity: `AccountStatus` `acc_state_active$10` followed by a trailer bit -/
+example : Src.AccountStatus false ⟨[true, false, true], []⟩ =
+    some (Rd.obj "AccountStatus" [("type_", Rd.str "active")], ⟨[true], []⟩) := rfl
+
 
 end TonVerif.Tlb
